@@ -159,12 +159,14 @@ type sym struct {
 	poll       bool
 	expire     bool // short detection time, then wait for the expiry
 	dtxms      int  // expire: Desired Min TX Interval of the packet in ms (0 = 1 ms)
+	idle       int  // not a packet: the driver sends nothing for this many ms (markers idle-begin / idle-end)
 }
 
 // scfg is the configuration of the session under test in a history.
 type scfg struct {
 	lmult int // local Detect Mult
 	rxms  int // local Required Min RX Interval
+	txms  int // local Desired Min TX Interval (0 = 3 ms)
 }
 
 func alphabet() []sym {
@@ -204,6 +206,20 @@ func timedHistories() (hs [][]sym, cfgs []scfg) {
 	return
 }
 
+// idleHistories: the session is brought to Down / Init / Up and then left alone for 5 s (no packet, no
+// expiry: the last packet announces a detection time of hours); RFC 5880 6.8.7: it has to keep
+// transmitting periodically in every state (a Down session at least once per second or so).
+func idleHistories() (hs [][]sym, cfgs []scfg) {
+	down := sym{state: 1, your: 0, my: 2, mult: 3, ver: 1}
+	upp := sym{state: 3, your: 1, my: 2, mult: 3, ver: 1}
+	idle := sym{idle: 5000}
+	hs = [][]sym{{idle}, {down, idle}, {down, upp, idle}, {down, upp, down, idle}}
+	for range hs {
+		cfgs = append(cfgs, scfg{lmult: 3, rxms: 2, txms: 200})
+	}
+	return
+}
+
 func concrete(abs int, own, peer uint32) layers.BFDDiscriminator {
 	switch abs {
 	case 0:
@@ -219,13 +235,27 @@ func concrete(abs int, own, peer uint32) layers.BFDDiscriminator {
 func runHistory(id int, h []sym, cfg scfg) []vt.M {
 	const own, peer = 0x1111, 0x2222
 	l := newLog(own, peer)
+	if cfg.txms == 0 {
+		cfg.txms = 3
+	}
 	s := &bfd.Session{Sender: nullSender{}, LocalDiscriminator: own, DetectMult: layers.BFDDetectMultiplier(cfg.lmult),
-		DesiredMinTxInterval: 3 * time.Millisecond, RequiredMinRxInterval: time.Duration(cfg.rxms) * time.Millisecond}
+		DesiredMinTxInterval: time.Duration(cfg.txms) * time.Millisecond, RequiredMinRxInterval: time.Duration(cfg.rxms) * time.Millisecond}
 	logs.Store(s, l)
 	defer logs.Delete(s)
 	done := make(chan error, 1)
 	go func() { done <- s.Run(context.Background()) }()
 	for _, x := range h {
+		if x.idle > 0 {
+			// the session is left alone: what it sends in the meantime is recorded by the hook
+			l.mu.Lock()
+			l.evs = append(l.evs, vt.M{"ev": "idle-begin"})
+			l.mu.Unlock()
+			time.Sleep(time.Duration(x.idle) * time.Millisecond)
+			l.mu.Lock()
+			l.evs = append(l.evs, vt.M{"ev": "idle-end", "ms": x.idle})
+			l.mu.Unlock()
+			continue
+		}
 		p := &layers.BFD{Version: layers.BFDVersion(x.ver), State: layers.BFDState(x.state),
 			DetectMultiplier: layers.BFDDetectMultiplier(x.mult), Multipoint: x.multipoint, Poll: x.poll,
 			MyDiscriminator: concrete(x.my, own, peer), YourDiscriminator: concrete(x.your, own, peer),
@@ -351,12 +381,29 @@ func (k *link) run() {
 func runPair(id int, rng *rand.Rand, chaos time.Duration) [][]vt.M {
 	const da, db = 0xaaaa, 0xbbbb
 	la, lb := newLog(da, db), newLog(db, da)
-	mk := func(d uint32) *bfd.Session {
-		// detection time 8 x 50 ms = 400 ms: scheduling stalls on a loaded machine do not expire it
-		return &bfd.Session{LocalDiscriminator: layers.BFDDiscriminator(d), DetectMult: 8, ReceiveQueueSize: 10,
-			DesiredMinTxInterval: 50 * time.Millisecond, RequiredMinRxInterval: 50 * time.Millisecond}
+	// Every other pair is asymmetric: each side has its own intervals and Detect Mult. The detection time a
+	// side applies to its peer's packets is peer.mult x max(own rx, peer tx); the multipliers are raised until
+	// it is at least 400 ms on both sides, so that scheduling stalls on a loaded machine do not expire it.
+	type side struct{ tx, rx, mult int }
+	ca, cb := side{50, 50, 8}, side{50, 50, 8}
+	if id%2 == 1 {
+		pick := func() side {
+			return side{[]int{40, 60, 100, 150}[rng.Intn(4)], []int{20, 50, 120}[rng.Intn(3)], 1 + rng.Intn(4)}
+		}
+		ca, cb = pick(), pick()
+		for cb.mult*max(ca.rx, cb.tx) < 400 {
+			cb.mult++
+		}
+		for ca.mult*max(cb.rx, ca.tx) < 400 {
+			ca.mult++
+		}
 	}
-	a, b := mk(da), mk(db)
+	mk := func(d uint32, c side) *bfd.Session {
+		return &bfd.Session{LocalDiscriminator: layers.BFDDiscriminator(d), DetectMult: layers.BFDDetectMultiplier(c.mult),
+			ReceiveQueueSize: 10, DesiredMinTxInterval: time.Duration(c.tx) * time.Millisecond,
+			RequiredMinRxInterval: time.Duration(c.rx) * time.Millisecond}
+	}
+	a, b := mk(da, ca), mk(db, cb)
 	admin := rng.Intn(2) == 0
 	loss := []float64{0.1, 0.3, 0.6, 0.9}[rng.Intn(4)]
 	ab := &link{ch: make(chan *layers.BFD, 64), dst: b, dlog: lb, rng: rand.New(rand.NewSource(rng.Int63())), loss: loss, injectAdminDown: admin}
@@ -414,13 +461,13 @@ func runPair(id int, rng *rand.Rand, chaos time.Duration) [][]vt.M {
 	_ = b.Close()
 	<-da1
 	<-db1
-	dump := func(l *sessLog, sub int) []vt.M {
+	dump := func(l *sessLog, sub int, c side) []vt.M {
 		l.mu.Lock()
 		defer l.mu.Unlock()
-		out := []vt.M{{"ev": "reset", "kind": "pair", "id": id*2 + sub, "rxms": 50, "lmult": 8}}
+		out := []vt.M{{"ev": "reset", "kind": "pair", "id": id*2 + sub, "rxms": c.rx, "lmult": c.mult}}
 		return append(out, l.evs...)
 	}
-	return [][]vt.M{dump(la, 0), dump(lb, 1)}
+	return [][]vt.M{dump(la, 0, ca), dump(lb, 1, cb)}
 }
 
 // ---------------------------------------------------------------------------------- RFC peer
@@ -674,6 +721,9 @@ func main() {
 	th, tc := timedHistories()
 	hs = append(hs, th...)
 	cfgs = append(cfgs, tc...)
+	ih, ic := idleHistories()
+	hs = append(hs, ih...)
+	cfgs = append(cfgs, ic...)
 	for i := 0; i < *nrand; i++ {
 		n := 5 + rng.Intn(25)
 		h := make([]sym, n)
